@@ -40,11 +40,14 @@ type c11state struct {
 
 	endedRounds map[hrKey]string
 	// did gossip receive the justification for hrKey before anything for a later round?
-	justified     map[hrKey]bool
-	laterSeen     map[hrKey]bool
-	updatesJudged int
-	viewsJudged   int
-	quiescences   int
+	justified        map[hrKey]bool
+	laterSeen        map[hrKey]bool
+	updatesJudged    int
+	viewsJudged      int
+	jumpAheadsJudged int
+	jumpAheadsLive   int
+	smLive           bool
+	quiescences      int
 }
 
 func newC11() *c11state {
@@ -147,6 +150,50 @@ func (mo *monitors) justifies(v *tmconsensus.VersionedRoundView) bool {
 	return exceedsTwoThirds(nilPow, set.total) || set.power(union) == set.total
 }
 
+// c11jumpAhead judges a jump-ahead view as the state machine stand-in received it:
+// it is the mirror's message "round skipped, go to this one", so it has to carry the
+// votes that justified the skip (at least the Byzantine minority of the power in
+// prevotes or in precommits for the target round, the kernel's own rule), and its vote
+// summary has to describe the proofs it carries. The mirror may have moved on since;
+// what it handed over must not have changed with it.
+func (mo *monitors) c11jumpAhead(ja *tmconsensus.VersionedRoundView) {
+	c := mo.c11
+	c.jumpAheadsJudged++
+	set := mo.w.set(ja.Height)
+	min := tmconsensus.ByzantineMinority(set.total)
+	pow := func(proofs map[string]gcrypto.CommonMessageSignatureProof) uint64 {
+		union := map[int]struct{}{}
+		for _, p := range proofs {
+			if p == nil {
+				continue
+			}
+			var bs bitset.BitSet
+			p.SignatureBitSet(&bs)
+			for i, ok := bs.NextSet(0); ok; i, ok = bs.NextSet(i + 1) {
+				union[int(i)] = struct{}{}
+			}
+		}
+		return set.power(union)
+	}
+	pv, pc := pow(ja.PrevoteProofs), pow(ja.PrecommitProofs)
+	// The votes are demanded only of a jump that happened while the state machine was in a
+	// round the mirror still held when it answered the entrance: a state machine that
+	// enters a round the mirror has left already is sent on to the mirror's voting round,
+	// whatever that holds.
+	live := c.smIn && c.smLive && ja.Height == c.smH && ja.Round > c.smR
+	if live {
+		c.jumpAheadsLive++
+	}
+	if live && pv < min && pc < min {
+		mo.cs.violate("C11", "C11:jump-ahead-view-lacks-the-votes-that-justified-the-jump",
+			fmt.Sprintf("the state machine received a jump-ahead view for %d/%d (version %d) whose proofs carry prevote power %d and precommit power %d; a jump needs %d of %d", ja.Height, ja.Round, ja.Version, pv, pc, min, set.total), nil)
+	}
+	if ja.VoteSummary.TotalPrevotePower != pv || ja.VoteSummary.TotalPrecommitPower != pc {
+		mo.cs.violate("C11", "C11:jump-ahead-view-summary-disagrees-with-its-proofs",
+			fmt.Sprintf("the state machine received a jump-ahead view for %d/%d (version %d) whose summary reports prevote power %d and precommit power %d while its proofs carry %d and %d", ja.Height, ja.Round, ja.Version, ja.VoteSummary.TotalPrevotePower, ja.VoteSummary.TotalPrecommitPower, pv, pc), nil)
+	}
+}
+
 func (mo *monitors) c11consume(gossip []recvGossip, sm []recvSM) {
 	c := mo.c11
 	for i := range gossip {
@@ -180,6 +227,7 @@ func (mo *monitors) c11consume(gossip []recvGossip, sm []recvSM) {
 			c.sm = map[hrKey]*viewMem{}
 			c.lastSMView = nil
 			c.smH, c.smR, c.smIn = e.h, e.r, true
+			c.smLive = e.live
 			c.smEntranceVersion = 0
 			if e.resp.IsVRV() {
 				c.smEntranceVersion = e.resp.VRV.Version
@@ -188,6 +236,9 @@ func (mo *monitors) c11consume(gossip []recvGossip, sm []recvSM) {
 			continue
 		}
 		v := &sm[i].v
+		if ja := v.JumpAheadRoundView; ja != nil && ja.Height > 0 {
+			mo.c11jumpAhead(ja)
+		}
 		if v.VRV.Height > 0 {
 			if !c.smIn || v.VRV.Height != c.smH || v.VRV.Round != c.smR {
 				// The harness's one-slot buffer can hold a view the kernel handed over
